@@ -1208,6 +1208,9 @@ func sameValue(a, b ssa.Value) bool {
 	case *ssa.Convert:
 		y, ok := b.(*ssa.Convert)
 		return ok && sameValue(x.X, y.X)
+	case *ssa.ChangeType:
+		y, ok := b.(*ssa.ChangeType)
+		return ok && sameValue(x.X, y.X)
 	}
 	return false
 }
